@@ -685,6 +685,120 @@ func (in *inliner) inlineGuarded(b *inlBody, callerFile string, call *ast.CallEx
 	return true
 }
 
+// inlineNilWrapper: `out.F = h(a)` where h is a new helper of the shape
+//
+//	func h(p T) U { if p == nil { return nil }; return E }
+//
+// and out is a variable of this function that was allocated by `out := &S{…}` without F and whose F
+// has not been assigned before in this statement list: the statement becomes
+// `if a != nil { out.F = E[p→a] }` (F is nil until then, so the nil case stores nothing new).
+func (in *inliner) inlineNilWrapper(fd *ast.FuncDecl, list []ast.Stmt, i int, s *ast.AssignStmt, declOf map[types.Object]*ast.FuncDecl, isNew func(*ast.FuncDecl) bool,
+	helperBody func(*ast.FuncDecl, *ast.CallExpr) (*inlBody, []ast.Expr, bool)) bool {
+	if s.Tok != token.ASSIGN || len(s.Lhs) != 1 || len(s.Rhs) != 1 {
+		return false
+	}
+	call, ok := ast.Unparen(s.Rhs[0]).(*ast.CallExpr)
+	if !ok || len(call.Args) != 1 {
+		return false
+	}
+	hd := declOf[calleeFuncObj(in.info, call)]
+	if hd == nil || hd == fd || !isNew(hd) || hd.Recv != nil || hd.Type.Results == nil || len(hd.Type.Results.List) != 1 || len(hd.Body.List) != 2 {
+		return false
+	}
+	b, args, ok := helperBody(hd, call)
+	if !ok || len(b.params) != 1 || b.params[0] == nil {
+		return false
+	}
+	guard, ok := hd.Body.List[0].(*ast.IfStmt)
+	ret, ok2 := hd.Body.List[1].(*ast.ReturnStmt)
+	if !ok || !ok2 || guard.Init != nil || guard.Else != nil || len(guard.Body.List) != 1 || len(ret.Results) != 1 {
+		return false
+	}
+	gr, ok := guard.Body.List[0].(*ast.ReturnStmt)
+	if !ok || len(gr.Results) != 1 || !isIdentNamed(gr.Results[0], "nil") {
+		return false
+	}
+	be, ok := ast.Unparen(guard.Cond).(*ast.BinaryExpr)
+	if !ok || be.Op != token.EQL || !isIdentNamed(be.Y, "nil") {
+		return false
+	}
+	pid, ok := ast.Unparen(be.X).(*ast.Ident)
+	if !ok || in.info.Uses[pid] != b.params[0] {
+		return false
+	}
+	// the target: X.F with X := &S{…} (no F in the literal), F not assigned earlier in this list
+	se, ok := ast.Unparen(s.Lhs[0]).(*ast.SelectorExpr)
+	if !ok {
+		return false
+	}
+	xid, ok := se.X.(*ast.Ident)
+	if !ok {
+		return false
+	}
+	xobj := in.info.Uses[xid]
+	fresh := false
+	ast.Inspect(fd.Body, func(n ast.Node) bool {
+		as, ok := n.(*ast.AssignStmt)
+		if !ok || as.Tok != token.DEFINE || len(as.Lhs) != 1 || len(as.Rhs) != 1 || as.Pos() > s.Pos() {
+			return true
+		}
+		if id, ok := as.Lhs[0].(*ast.Ident); ok && in.info.Defs[id] == xobj {
+			if u, ok := ast.Unparen(as.Rhs[0]).(*ast.UnaryExpr); ok && u.Op == token.AND {
+				if lit, ok := ast.Unparen(u.X).(*ast.CompositeLit); ok {
+					fresh = true
+					for _, el := range lit.Elts {
+						if kv, ok := el.(*ast.KeyValueExpr); ok && types.ExprString(kv.Key) == se.Sel.Name {
+							fresh = false
+						}
+					}
+				}
+			}
+		}
+		return true
+	})
+	if !fresh {
+		return false
+	}
+	lhsText := types.ExprString(s.Lhs[0])
+	for _, prev := range list[:i] {
+		bad := false
+		ast.Inspect(prev, func(n ast.Node) bool {
+			if as, ok := n.(*ast.AssignStmt); ok {
+				for _, l := range as.Lhs {
+					if types.ExprString(l) == lhsText {
+						bad = true
+					}
+				}
+			}
+			return true
+		})
+		if bad {
+			return false
+		}
+	}
+	callerFile := in.p.Fset.Position(fd.Pos()).Filename
+	retBody := &inlBody{file: b.file, body: &ast.BlockStmt{Lbrace: ret.Pos(), List: []ast.Stmt{ret}, Rbrace: ret.End()}, params: b.params, scope: hd, name: b.name}
+	locals := map[types.Object]bool{}
+	pe, ok := in.paramEdits(retBody, callerFile, args, locals)
+	if !ok || !in.freeVarsVisible(retBody, call.Pos(), locals) {
+		return false
+	}
+	src := in.source(b.file)
+	lo, hi := in.off(ret.Results[0].Pos()), in.off(ret.Results[0].End())
+	if src == nil || lo > hi || hi > len(src) {
+		return false
+	}
+	valText := applyEdits(src[lo:hi], lo, pe)
+	argText := in.text(callerFile, args[0].Pos(), args[0].End())
+	if valText == "" || argText == "" || strings.Contains(valText, "\n") {
+		return false
+	}
+	text := fmt.Sprintf("if %s != nil { %s = %s }", argText, in.text(callerFile, s.Lhs[0].Pos(), s.Lhs[0].End()), valText)
+	in.edits[callerFile] = append(in.edits[callerFile], inlEdit{in.off(s.Pos()), in.off(s.End()), text})
+	in.notes = append(in.notes, fmt.Sprintf("%s (nil-guard wrapper) inlined at %s:%d", b.name, relName(in.p, callerFile), in.line(s.Pos())))
+	return true
+}
+
 // renameLocals: edits that give every object declared inside the helper's body a suffixed name.
 func (in *inliner) renameLocals(b *inlBody, locals map[types.Object]bool) []inlEdit {
 	var es []inlEdit
@@ -790,8 +904,8 @@ func (p *Program) inlineOverlay() (map[string][]byte, []string) {
 		}
 		inlinedCalls := map[*ast.FuncDecl]int{}
 		for _, fd := range AllFuncDecls(pkg) {
-			if fd.Body == nil || strings.HasSuffix(fileName(fd.Pos()), "-generated.go") {
-				continue
+			if fd.Body == nil {
+				continue // (callers in generated files are read too: hand patches land there)
 			}
 			callerFile := fileName(fd.Pos())
 			fkey := roleKey(pkg.PkgPath, recvTypeName(fd), fd.Name.Name)
@@ -1031,6 +1145,15 @@ func (p *Program) inlineOverlay() (map[string][]byte, []string) {
 							}
 						}
 					case *ast.AssignStmt:
+						if in.inlineNilWrapper(fd, list, i, s, declOf, isNewHelper, helperBody) {
+							done[st] = true
+							if call, ok := ast.Unparen(s.Rhs[0]).(*ast.CallExpr); ok {
+								if hd := declOf[calleeFuncObj(in.info, call)]; hd != nil {
+									inlinedCalls[hd]++
+								}
+							}
+							continue
+						}
 						if len(s.Rhs) != 1 || (s.Tok != token.DEFINE && s.Tok != token.ASSIGN) || i+1 >= len(list) {
 							continue
 						}
